@@ -395,6 +395,38 @@ def execSeq (caps enabled : List Cap) (tagNo : Nat) (c1 : Cmd) (s1 : List Act) (
   | none => none
   | some (_, q) => (execFrom q caps enabled (tagNo + 2) c2 s2).map (·.1)
 
+/-! ## the negotiated state between commands -/
+
+/-- what the client remembers of the server's announcements: `Client.caps`, `Client.enabled` -/
+structure Sess where
+  caps : List Cap := []
+  enabled : List Cap := []
+deriving DecidableEq, Repr
+
+/-- the places where the client changes that state -/
+inductive SessStep where
+  /-- `setCaps(caps)`: a capability list arrived — `[CAPABILITY …]` code of the greeting or of a
+      tagged OK (readResponseTagged / readResponseData), or an untagged `* CAPABILITY` (handleCapability) -/
+  | setCaps (l : List Cap)
+  /-- `handleEnabled`: `* ENABLED …` adds the names to `c.enabled` -/
+  | enabled (l : List Cap)
+  /-- `completeCommand` of a successful UNAUTHENTICATE: `c.enabled = make(imap.CapSet)` -/
+  | unauthDone
+deriving DecidableEq, Repr
+
+def Sess.step (s : Sess) : SessStep → Sess
+  | .setCaps l => { s with caps := l }
+  | .enabled l => { s with enabled := s.enabled ++ l }
+  | .unauthDone => { s with enabled := [] }
+
+def Sess.run (s : Sess) (steps : List SessStep) : Sess := steps.foldl Sess.step s
+
+/-- a command written in session state `s`: `beginCommand` takes its snapshot of `c.caps` /
+    `c.enabled` AFTER it has obtained the encoder lock, i.e. the state at the moment the command's
+    first byte is written, whatever the state was when the caller asked for the command -/
+def execIn (s : Sess) (tagNo : Nat) (c : Cmd) (script : List Act) : Option Outcome :=
+  exec s.caps s.enabled tagNo c script
+
 /-! ## behaviour before the repairs (kept for the counterexample theorems of Props/C18) -/
 namespace Legacy
 
